@@ -168,6 +168,58 @@ func rulesC15(p *Prog, r *Report) {
 			}
 		}
 	}
+	// messages completed by an offset appender (problem + " at offset " + Itoa(position)): the position is
+	// judged where it is rendered, the lexeme where the caller builds its part of the text
+	for _, app := range offsetAppenders(p) {
+		f := app.Fn
+		if !p.R[f] || len(f.Params) == 0 {
+			continue
+		}
+		if pt, ok := f.Params[0].Type().Underlying().(*types.Pointer); !ok || !types.Identical(pt.Elem(), esT) {
+			continue
+		}
+		n++
+		fb := bp.forFn(f)
+		key := fmt.Sprintf("%s|%q", p.shortKey(f), "… at offset <n>")
+		want := linVar(fmt.Sprintf("mem(%s.%s@%s)", fb.vid(f.Params[0], app.At), cursor, fb.versionAt("fld:"+esT.String()+"."+cursor, app.At)))
+		if comp != "" {
+			want = want.add(linVar(fmt.Sprintf("mem(%s.%s@%s)", fb.vid(f.Params[0], app.At), comp, fb.versionAt("fld:"+esT.String()+"."+comp, app.At))))
+		}
+		got, okG := offsetLin(bp, fb, app.Off, app.At)
+		switch {
+		case !okG:
+			r.Unknown("O1", key, p.pos(app.At.Pos()), "kind=undecided: the reported offset is not a linear expression of the stream's fields")
+		case got.sub(want).isConst() && got.sub(want).k.Sign() == 0 && okO2:
+			r.OK("O1", key, p.pos(app.At.Pos()), "offset = cursor + compensation at the time the message is completed", got.String(), true)
+		case got.sub(want).isConst() && got.sub(want).k.Sign() == 0:
+			r.Bad("O1", key, p.pos(app.At.Pos()), "the offset is the raw cursor while the buffer may have been rewritten (see O2)")
+		default:
+			r.Bad("O1", key, p.pos(app.At.Pos()), fmt.Sprintf("the reported offset is %s, not the scanner's position in the caller's string (%s)", shortVars(got.String()), shortVars(want.String())))
+		}
+		// every call site completes a message: they count as messages, and a quoted lexeme is checked there
+		if app.Prefix < 0 {
+			continue
+		}
+		for _, g := range p.RList {
+			gfb := bp.forFn(g)
+			for _, b := range g.Blocks {
+				for _, in := range b.Instrs {
+					c, ok := in.(*ssa.Call)
+					if !ok || c.Call.StaticCallee() != f || app.Prefix >= len(c.Call.Args) {
+						continue
+					}
+					n++
+					r.OK("O1", fmt.Sprintf("%s|message via %s", p.shortKey(g), f.Name()), p.pos(c.Pos()), "position appended by "+f.Name()+" from the same stream", "", false)
+					if c.Call.Args[0] != ssa.Value(g.Params[0]) {
+						r.Bad("O1", fmt.Sprintf("%s|message via %s|stream", p.shortKey(g), f.Name()), p.pos(c.Pos()), "the position is taken from a different stream than the one being scanned")
+					}
+					if lex := lexemeOperand(c.Call.Args[app.Prefix]); lex != nil {
+						checkLexeme(p, r, bp, gfb, g, c, lex, cursor, esT)
+					}
+				}
+			}
+		}
+	}
 	if n == 0 {
 		r.Unknown("O1", "messages", "-", "kind=undecided: no offset-bearing message found")
 	}
